@@ -808,11 +808,43 @@ class Generator:
             kw, opn = loops[n - 1]
             edits.append((kw, kw, " " + "\n".join(payload).strip("\n") + " "))
             unit.insertions.append("before loop %d: ghost declarations" % n)
+        desugar = [int(f.split("=")[1]) for f in flags if f.startswith("desugar_for=")]
         for n, payload in want.items():
             kw, opn = loops[n - 1]
             txt = "\n" + "\n".join(payload) + "\n"
+            if n in desugar:
+                continue
             edits.append((opn, opn, txt))
             unit.insertions.append("loop %d: invariant/decreases" % n)
+        # T11: `for PAT in EXPR { BODY }` over one of bpaf's own iterators, desugared as the Rust reference defines it:
+        # `{ let mut it = EXPR; loop { let PAT = match it.next() { Some(x) => x, None => break }; BODY } }`
+        for n in desugar:
+            if n > len(loops):
+                raise ShapeError("%s: unit desugars loop %d but the body has %d loops" % (unit.name, n, len(loops)))
+            kw, opn = loops[n - 1]
+            if toks[kw].text != "for":
+                raise ShapeError("%s: loop %d is no longer a `for` loop" % (unit.name, n))
+            inn = None
+            depth = 0
+            for k in range(kw + 1, opn):
+                tx = toks[k]
+                if tx.kind == "punct" and tx.text in "([{":
+                    depth += 1
+                elif tx.kind == "punct" and tx.text in ")]}":
+                    depth -= 1
+                elif tx.kind == "ident" and tx.text == "in" and depth == 0:
+                    inn = k
+                    break
+            if inn is None:
+                raise ShapeError("%s: loop %d: `in` not found" % (unit.name, n))
+            pat = text_of(src, kw + 1, inn).strip()
+            expr = text_of(src, inn + 1, opn).strip()
+            inv = "\n" + "\n".join(want.get(n, [])) + "\n"
+            head = "{ let mut verif_it_%d = %s; loop %s { let %s = match verif_it_%d.next() { Some(verif_x) => verif_x, None => break, }; " % (n, expr, inv, pat, n)
+            edits.append((kw, opn + 1, head))
+            cls = match_close(toks, opn)
+            edits.append((cls + 1, cls + 1, " }"))
+            unit.insertions.append("T11 loop %d: `for %s in %s` desugared to `loop { match it.next() .. }`" % (n, pat, expr))
         # anchored insertions
         body_text_start = toks[bo].start
         body_text = src.text[body_text_start : toks[bc].end]
